@@ -933,7 +933,7 @@ fn ef_queries(ef: &EliasFano, xs: &[usize], u: usize, rng: &mut Rng, out: &mut O
 
 fn gen_universe(rng: &mut Rng, m: usize) -> usize {
     match rng.below(10) {
-        0 => rng.range(1, (m as u64).saturating_add(1)) as usize,                // u <= m: low width 0
+        0 => if rng.chance(1, 6) { 0 } else { rng.range(1, (m as u64).saturating_add(1)) as usize },   // u <= m: low width 0 (and the empty universe)
         1 => usize::MAX,
         2 => usize::MAX - rng.below(3) as usize,
         3 => (m as u64 * rng.range(1, 5)) as usize,
@@ -1142,7 +1142,13 @@ fn kind_cv(rng: &mut Rng, out: &mut Out, id: &str, tier: &str) {
         } else if c < 20 {
             let len = if rng.chance(1, 6) { 0 } else { rng.range(1, 80) as usize };
             let w = rng.range(1, 64);
-            let vals: Vec<usize> = (0..len).map(|_| if w == 64 { rng.next() as usize } else { (rng.next() & ((1u64 << w) - 1)) as usize }).collect();
+            let mut vals: Vec<usize> = (0..len).map(|_| if w == 64 { rng.next() as usize } else { (rng.next() & ((1u64 << w) - 1)) as usize }).collect();
+            // maxima at and just below / above a power of two
+            if len > 0 && rng.chance(1, 2) {
+                let top = if w == 64 { usize::MAX } else { (1usize << w) - 1 };
+                let i = rng.below(len as u64) as usize;
+                vals[i] = match rng.below(4) { 0 => top, 1 => top - rng.below(3) as usize, 2 => (top >> 1) + 1, _ => top - (rng.below(5000) as usize).min(top) };
+            }
             out.data(&vals);
             match guard(|| CompactVector::from_slice(&vals)) {
                 None => out.op(73, &[], "P".into(), "from_slice"),
